@@ -29,6 +29,8 @@ type Chunk struct {
 	Size int  `json:"size"`
 	Rand bool `json:"rand,omitempty"` // incompressible bytes
 	Salt int  `json:"salt,omitempty"`
+	// Flush: the writer is flushed after this chunk (Response.Flush / http.Flusher)
+	Flush bool `json:"flush,omitempty"`
 }
 
 func (c Chunk) bytes() []byte {
@@ -84,7 +86,7 @@ func genChunks(t *rapid.T, label string, max int) []Chunk {
 	}
 	var out []Chunk
 	for i := 0; i < n; i++ {
-		out = append(out, Chunk{Size: rapid.SampledFrom(sizes).Draw(t, label+"size"), Rand: rapid.Bool().Draw(t, label+"rand"), Salt: rapid.IntRange(0, 999).Draw(t, label+"salt")})
+		out = append(out, Chunk{Size: rapid.SampledFrom(sizes).Draw(t, label+"size"), Rand: rapid.Bool().Draw(t, label+"rand"), Salt: rapid.IntRange(0, 999).Draw(t, label+"salt"), Flush: rapid.IntRange(0, 4).Draw(t, label+"flush") == 0})
 	}
 	return out
 }
@@ -138,6 +140,11 @@ func (r *c07run) write(w io.Writer, chunks []Chunk) {
 		n, _ := w.Write(b)
 		if n > 0 {
 			r.written.Write(b[:n])
+		}
+		if ch.Flush {
+			if f, ok := w.(http.Flusher); ok {
+				f.Flush()
+			}
 		}
 	}
 }
